@@ -72,8 +72,122 @@ func appendFact(fs []Fact, f Fact, depth int) []Fact {
 		for _, sf := range inlinePredicateFacts(x, f.Truth) {
 			fs = appendFact(fs, sf, depth+1)
 		}
+	case *ssa.Extract:
+		// the flag of a small accessor (`v, ok := vl.single()`)
+		if x.Type() == nil {
+			break
+		}
+		if bt, ok := x.Type().Underlying().(*types.Basic); ok && bt.Kind() == types.Bool {
+			for _, sf := range inlineFlagFacts(x, f.Truth) {
+				fs = appendFact(fs, sf, depth+1)
+			}
+		}
+	case *ssa.BinOp:
+		// a guard that answers with an error (`if err := checkFinite(x); err != nil`):
+		// where the error is nil, what every nil return of the guard knows
+		if x.Op == token.EQL || x.Op == token.NEQ {
+			var cv ssa.Value
+			switch {
+			case isNilConst(x.Y):
+				cv = x.X
+			case isNilConst(x.X):
+				cv = x.Y
+			}
+			if c, ok := cv.(*ssa.Call); ok {
+				isNil := (x.Op == token.EQL) == f.Truth
+				for _, sf := range inlineErrGuardFacts(c, isNil) {
+					fs = appendFact(fs, sf, depth+1)
+				}
+			}
+		}
 	}
 	return fs
+}
+
+var errGuardBusy = map[*ssa.Function]bool{}
+
+// inlineErrGuardFacts: c calls a small loop-free module function whose only
+// result is an error; the facts (over the caller's values) that hold on every
+// return of it whose error is nil (isNil) or non-nil.
+type errGuardKey struct {
+	c     *ssa.Call
+	isNil bool
+}
+
+var errGuardMemo = map[errGuardKey][]Fact{}
+
+func inlineErrGuardFacts(c *ssa.Call, isNil bool) []Fact {
+	k := errGuardKey{c, isNil}
+	if r, ok := errGuardMemo[k]; ok {
+		return r
+	}
+	r := inlineErrGuardFacts0(c, isNil)
+	if !errGuardBusy[c.Call.StaticCallee()] {
+		errGuardMemo[k] = r
+	}
+	return r
+}
+
+func inlineErrGuardFacts0(c *ssa.Call, isNil bool) []Fact {
+	h := c.Call.StaticCallee()
+	if h == nil || !inModule(h) || h.Blocks == nil || len(h.Blocks) > 12 || h.Signature.Results().Len() != 1 || !isErrorType(h.Signature.Results().At(0).Type()) || errGuardBusy[h] {
+		return nil
+	}
+	for _, b := range h.Blocks {
+		for _, pr := range b.Preds {
+			if b.Dominates(pr) {
+				return nil
+			}
+		}
+	}
+	errGuardBusy[h] = true
+	defer delete(errGuardBusy, h)
+	var common []Fact
+	first := true
+	for _, r := range expandedReturns(h) {
+		v := stripConv(r.Results[0])
+		var thisNil bool
+		switch {
+		case isNilConst(v):
+			thisNil = true
+		default:
+			cc, ok := v.(*ssa.Call)
+			if !ok {
+				return nil
+			}
+			if q := calleeQualified(&cc.Call); q != "fmt.Errorf" && q != "errors.New" {
+				return nil
+			}
+		}
+		if thisNil != isNil {
+			continue
+		}
+		if first {
+			common = append(common, r.Facts...)
+			first = false
+			continue
+		}
+		var keep []Fact
+		for _, cf := range common {
+			for _, rf := range r.Facts {
+				if rf.Cond == cf.Cond && rf.Truth == cf.Truth {
+					keep = append(keep, cf)
+					break
+				}
+			}
+		}
+		common = keep
+	}
+	var out []Fact
+	for _, cf := range common {
+		switch cf.Cond.(type) {
+		case *ssa.BinOp, *ssa.Call:
+			if sv := substInto(c, h, cf.Cond, 0); sv != nil {
+				out = append(out, Fact{sv, cf.Truth, true})
+			}
+		}
+	}
+	return out
 }
 
 // realFacts drops the facts rebuilt from named tests (for consumers that need
@@ -440,6 +554,196 @@ func stripConv(v ssa.Value) ssa.Value {
 				return v
 			}
 			v = nv
+		case *ssa.Extract:
+			nv := inlineGuardedAccessor(x)
+			if nv == v {
+				return v
+			}
+			v = nv
+		default:
+			return v
+		}
+	}
+}
+
+var pureMultiMemo = map[*ssa.Function]int{}
+
+// pureMulti: a small loop-free, effect-free function of packages exec, parser,
+// path or types with two or more results (`single() (any, bool)`).
+func pureMulti(g *ssa.Function) bool {
+	if g == nil {
+		return false
+	}
+	if r, ok := pureMultiMemo[g]; ok {
+		return r == 1
+	}
+	pureMultiMemo[g] = 2
+	if g.Blocks == nil || len(g.Blocks) > 8 || g.Signature.Results().Len() < 2 || len(g.FreeVars) > 0 {
+		return false
+	}
+	switch fnPkgPath(g) {
+	case pkgExec, pkgParser, pkgPath, pkgTypes:
+	default:
+		return false
+	}
+	for _, b := range g.Blocks {
+		for _, pr := range b.Preds {
+			if b.Dominates(pr) {
+				return false
+			}
+		}
+		for _, ins := range b.Instrs {
+			switch x := ins.(type) {
+			case *ssa.If, *ssa.Jump, *ssa.Phi, *ssa.DebugRef, *ssa.BinOp, *ssa.FieldAddr, *ssa.IndexAddr, *ssa.Convert, *ssa.ChangeType, *ssa.MakeInterface, *ssa.Return:
+			case *ssa.UnOp:
+				if x.Op != token.NOT && x.Op != token.MUL && x.Op != token.SUB {
+					return false
+				}
+			case *ssa.Call:
+				if bi, ok := x.Call.Value.(*ssa.Builtin); ok && (bi.Name() == "len" || bi.Name() == "cap") {
+					continue
+				}
+				return false
+			default:
+				return false
+			}
+		}
+	}
+	pureMultiMemo[g] = 1
+	return true
+}
+
+// inlineGuardedAccessor: x is result #i of a pure multi-result helper that
+// hands back, for that result, either a zero constant or one and the same
+// expression over its parameters (`vl.list[0]` beside `true`, nil beside
+// `false`): that expression over the call's arguments. What the value is when
+// the flag is false is the zero — rules that look at the value do so behind
+// the flag, whose facts appendFact supplies.
+var guardedAccMemo = map[*ssa.Extract]ssa.Value{}
+
+func inlineGuardedAccessor(x *ssa.Extract) ssa.Value {
+	if r, ok := guardedAccMemo[x]; ok {
+		return r
+	}
+	r := inlineGuardedAccessor0(x)
+	guardedAccMemo[x] = r
+	return r
+}
+
+func inlineGuardedAccessor0(x *ssa.Extract) ssa.Value {
+	c, ok := x.Tuple.(*ssa.Call)
+	if !ok || c.Call.IsInvoke() {
+		return x
+	}
+	g := c.Call.StaticCallee()
+	if !pureMulti(g) {
+		return x
+	}
+	if x.Index >= g.Signature.Results().Len() || isErrorType(g.Signature.Results().At(x.Index).Type()) {
+		return x // nil-ness of an error is the information
+	}
+	// the flag: a bool result that is the constant true exactly where this
+	// result is the expression and the constant false where it is the zero
+	flag := -1
+	for j := 0; j < g.Signature.Results().Len(); j++ {
+		if bt, ok := g.Signature.Results().At(j).Type().Underlying().(*types.Basic); ok && bt.Kind() == types.Bool && j != x.Index {
+			flag = j
+		}
+	}
+	if flag < 0 {
+		return x
+	}
+	var expr ssa.Value
+	for _, r := range expandedReturns(g) {
+		if x.Index >= len(r.Results) || flag >= len(r.Results) {
+			return x
+		}
+		fk, isC := stripConvPlain(r.Results[flag]).(*ssa.Const)
+		if !isC || fk.Value == nil {
+			return x
+		}
+		flagTrue := fk.Value.ExactString() == "true"
+		v := r.Results[x.Index]
+		if k, isC := v.(*ssa.Const); isC {
+			if !flagTrue && (k.Value == nil || k.Value.ExactString() == "false" || k.Value.ExactString() == "0" || k.Value.ExactString() == `""`) {
+				continue
+			}
+			return x
+		}
+		if !flagTrue || (expr != nil && expr != v) {
+			return x
+		}
+		expr = v
+	}
+	if expr == nil {
+		return x
+	}
+	if sv := substInto(c, g, expr, 0); sv != nil {
+		return sv
+	}
+	return x
+}
+
+// inlineFlagFacts: x is a bool result of a pure multi-result helper; the facts
+// common to its returns on which that result is the constant truth.
+func inlineFlagFacts(x *ssa.Extract, truth bool) []Fact {
+	c, ok := x.Tuple.(*ssa.Call)
+	if !ok || c.Call.IsInvoke() {
+		return nil
+	}
+	g := c.Call.StaticCallee()
+	if !pureMulti(g) {
+		return nil
+	}
+	var common []Fact
+	first := true
+	for _, r := range expandedReturns(g) {
+		if x.Index >= len(r.Results) {
+			return nil
+		}
+		k, isC := stripConvPlain(r.Results[x.Index]).(*ssa.Const)
+		if !isC || k.Value == nil {
+			return nil // the flag is computed: nothing known
+		}
+		if (k.Value.ExactString() == "true") != truth {
+			continue
+		}
+		if first {
+			common = append(common, r.Facts...)
+			first = false
+			continue
+		}
+		var keep []Fact
+		for _, cf := range common {
+			for _, rf := range r.Facts {
+				if rf.Cond == cf.Cond && rf.Truth == cf.Truth {
+					keep = append(keep, cf)
+					break
+				}
+			}
+		}
+		common = keep
+	}
+	var out []Fact
+	for _, cf := range common {
+		switch cf.Cond.(type) {
+		case *ssa.BinOp, *ssa.Call:
+			if sv := substInto(c, g, cf.Cond, 0); sv != nil {
+				out = append(out, Fact{sv, cf.Truth, true})
+			}
+		}
+	}
+	return out
+}
+
+// stripConvPlain looks through type changes only.
+func stripConvPlain(v ssa.Value) ssa.Value {
+	for {
+		switch x := v.(type) {
+		case *ssa.ChangeType:
+			v = x.X
+		case *ssa.ChangeInterface:
+			v = x.X
 		default:
 			return v
 		}
